@@ -19,7 +19,10 @@ RULE = ("every recorded public call (lu+L/U/pivot, lu.inverse, qr+Q/R, cholesky+
         "(Hadamard blocks), low-rank-plus-ridge, zero leading entries with negative alternatives, mildly graded (rows/columns "
         "of a {-1,0,1} matrix scaled by 2^0..2^2), singular, tall / wide with "
         "zero or duplicated rows, exactly rank-deficient with integer null-space basis, Gram / diagonally dominant / "
-        "indefinite / zero-pivot / semidefinite symmetric; exhaustive: all 729 symmetric 3x3 matrices over {-1,0,1} through "
+        "indefinite / zero-pivot / semidefinite symmetric; one certified input in six with tiny entries (2^-60 .. 2^-600 relative) "
+        "written into zero positions (graded entries inside one matrix); right-hand sides random or mixing zero, repeated, unit "
+        "and leading-column-orthogonal columns in every position; six fixed rank-deficient inputs (7x4, 5x5, 4x7, rank 1-2) in "
+        "f32 at 2^-37, 2^-40, 2^0 and f64 at 2^-40; exhaustive: all 729 symmetric 3x3 matrices over {-1,0,1} through "
         "cholesky, all 2x2 matrices over {-2..2} through everything. A call is non-trivial when its premise is exercised "
         "with a structural effect visible in the output: LU with P != I, QR with a negative diagonal entry of R or m > n, "
         "Cholesky / SVD of a non-diagonal matrix, a solve with m > n or rank-deficient A, an expected Cholesky error; "
@@ -75,16 +78,28 @@ def nontrivial(e):
 
 
 def validate(ctx, path, must_hit):
-    """TLC over one ndjson file, in chunks; returns (events, bads as (event, clause), hits)."""
+    """TLC over one ndjson file; returns (events, bads as (event, clause), hits).  The file is cut into parts of
+    at most CHUNK events, the expensive size-ladder events (orders 20 / 33 / 64, seconds of TLC time each) go into a
+    part of their own, and the parts are validated by up to three TLC processes side by side."""
+    from concurrent.futures import ThreadPoolExecutor
     events = vlib.read_ndjson(path)
-    bads, hits = [], {}
-    nchunks = max(1, (len(events) + CHUNK - 1) // CHUNK)
-    for c in range(nchunks):
-        part = events[c * CHUNK:(c + 1) * CHUNK]
-        f = path if nchunks == 1 else path.replace(".ndjson", "-part%d.ndjson" % c)
-        if nchunks > 1:
+    ladder = [e for e in events if "@" in e.get("fam", "")]
+    rest = [e for e in events if "@" not in e.get("fam", "")]
+    parts = [rest[c:c + CHUNK] for c in range(0, len(rest), CHUNK)] or [[]]
+    if ladder:
+        half = (len(ladder) + 1) // 2
+        parts += [ladder[:half], ladder[half:]] if len(ladder) > 8 else [ladder]
+    parts = [p for p in parts if p]
+    files = []
+    for c, part in enumerate(parts):
+        f = path if len(parts) == 1 else path.replace(".ndjson", "-part%d.ndjson" % c)
+        if len(parts) > 1:
             vlib.write_ndjson(f, part)
-        v, b = ctx.tlc_trace(SPEC, CFG, f, timeout=1500)
+        files.append(f)
+    with ThreadPoolExecutor(max_workers=3) as pool:
+        results = list(pool.map(lambda f: ctx.tlc_trace(SPEC, CFG, f, timeout=1500), files))
+    bads, hits = [], {}
+    for part, (v, b) in zip(parts, results):
         for (l, run, ev, clause) in b:
             bads.append((part[l - 1], clause))
         for k, n in v.get("hits", {}).items():
